@@ -343,6 +343,9 @@ def finishCase (s : SSt) (rline : String) : SSt := Id.run do
     if implOut != s.prevOut then
       s := s.report "spec" "C16" "repeated-run-differs" s!"first=[{s.prevOut.take 300}] second=[{implOut.take 300}]"
   s := { s with prevRaw := c.raw, prevOut := implOut }
+  if c.tag == "deep" then
+    -- large searches: only the implementation's repeated runs are compared (above); no model replay
+    return s
   -- ---------- correspondence with the executable model ----------
   let tt0 : Table Ply := if c.cache == "keep" then s.tt else {}
   let res := chessSearch board { nodes := c.nodes } (some c.depth) (fun _ => 0) c.stop (c.cache == "off") tt0
